@@ -24,4 +24,7 @@ def Ty_Implements (U : Flamego.Inject.Universe) (k t : Ty) : Bool := U.implement
 /-- `reflect.ValueOf(v)`: the value's identity -/
 def reflect_ValueOf (v : Flamego.GoSem.Any) : RVal := v
 
+/-- `fmt.Errorf(format, …)`: a non-nil error (the text is a detail) -/
+def fmt_Errorf (_format : String) : Flamego.GoSem.Err := 1
+
 end Flamego.Lib
